@@ -77,6 +77,7 @@ type wsRPCClient struct {
 	configuredSubs     map[fftypes.UUID]*sub
 	pendingSubsByReqID map[string]*sub
 	activeSubsBySubID  map[string]*sub
+	connGeneration     int64 // incremented each time the active state is cleared for a new connection
 }
 
 type sub struct {
@@ -87,6 +88,7 @@ type sub struct {
 	params         []interface{}
 	pendingReqID   string
 	currentSubID   string
+	confirmedGen   int64 // the connection generation on which the last confirmation was matched by popInflight
 	newSubResponse chan *RPCError
 	notifications  chan *RPCSubscriptionNotification
 }
@@ -174,6 +176,7 @@ func (rc *wsRPCClient) popInflight(rpcID string) (*sub, chan *RPCResponse) {
 	s, ok := rc.pendingSubsByReqID[rpcID]
 	if ok {
 		s.pendingReqID = ""
+		s.confirmedGen = rc.connGeneration
 		delete(rc.pendingSubsByReqID, rpcID)
 		return s, nil
 	}
@@ -191,6 +194,11 @@ func (rc *wsRPCClient) addActiveSub(s *sub, subscriptionID string) bool {
 	if s.localID == nil || rc.configuredSubs[*s.localID] != s {
 		// Unsubscribed (or abandoned by Subscribe) after the confirmation was matched to it by popInflight.
 		// It must not become active again: nothing would remove it, and its notifications channel is closed.
+		return false
+	}
+	if s.confirmedGen != rc.connGeneration {
+		// The connection was re-established after the confirmation was matched to it by popInflight: the
+		// subscription ID belongs to the old connection, and the subscription has been re-requested on the new one.
 		return false
 	}
 	s.currentSubID = subscriptionID
@@ -249,6 +257,7 @@ func (rc *wsRPCClient) clearActiveReturnConfiguredSubs() (map[string]chan *RPCRe
 	calls := rc.calls
 	rc.calls = make(map[string]chan *RPCResponse)
 	// Clear the active state as considered now invalid after a reconnect
+	rc.connGeneration++
 	rc.activeSubsBySubID = make(map[string]*sub)
 	rc.pendingSubsByReqID = make(map[string]*sub)
 	// Return all the configured ones so we can re-establish them on the new connecti
